@@ -91,10 +91,17 @@ def verify_keys(jobs, timeout_ms=20000, repo=None, procs=None):
 
 def jobs_for_property(prop):
     reg = load_contracts()
+    # a property stated as "the guarantees of other properties, for every ..." takes their contract sets too (props/<id>.py: INCLUDES)
+    props = {prop}
+    try:
+        import importlib
+        props |= set(getattr(importlib.import_module(f'props.{prop}'), 'INCLUDES', ()))
+    except ImportError:
+        pass
     jobs = []
     for key, cons in sorted(reg.items()):
         for i, con in enumerate(cons):
-            if prop in con.props:
+            if props & set(con.props):
                 jobs.append((key, i))
     return jobs
 
